@@ -34,7 +34,7 @@ def mc_module(name, frames, m2):
 
 def cfg(mut='none', invs=INVS):
     return ('CONSTANTS\n  P = 4\n  MaxEmpty = 2\n  Mut = "%s"\n  Frames <- MCFrames\nSPECIFICATION Spec\n' % mut
-            + ''.join(f'INVARIANT {i}\n' for i in invs))
+            + ''.join(f'INVARIANT {i}\n' for i in invs) + 'PROPERTY Progress\n')
 
 
 def build_stream(frames, rng):
